@@ -33,18 +33,21 @@ func runC06(r *an.Run) {
 func c06NoEffectPath(r *an.Run, m *runModel) {
 	r.Rule("R1-unmatched-path-has-no-effect")
 	f := m.run
-	brs := an.BranchesOn(f, m.matched)
-	if !r.Check(len(brs) >= 1, short(f)+"|branch-on-matched", m.apply.Pos(), "Run branches on the matched flag of (*patchRunner).Apply (%d branch(es))", len(brs)) {
+	unmatched := m.hyp(nil, map[ssa.Value]bool{m.matched: false})
+	nb := m.decides(unmatched)
+	if !r.Check(nb >= 1, short(f)+"|branch-on-matched", m.apply.Pos(), "Run branches on the matched flag of (*patchRunner).Apply (%d branch(es))", nb) {
 		return
 	}
-	region := m.iterationFrom(m.apply, edgesWhen(brs, true))
-	printBrs := m.optBranches("Print")
+	region := m.iterationUnder(m.apply, unmatched)
+	noPrint := m.hyp(map[string]bool{"Print": false}, nil)
 	n := 0
 	for _, c := range callsAfter(region, m.apply) {
 		n++
 		name := an.CalleeName(c)
 		key := short(f) + "|unmatched|" + an.TrimModule(name)
 		switch {
+		case an.IsPurePredicate(an.StaticCallee(c), 0):
+			r.Pass(key, c.Pos(), "effect-free predicate helper on the unmatched path")
 		case an.IsCallTo(c, logPrintf):
 			r.Pass(key, c.Pos(), "log line on the unmatched path")
 		case an.IsCallTo(c, "builtin:append"):
@@ -63,7 +66,7 @@ func c06NoEffectPath(r *an.Run, m *runModel) {
 		default:
 			if bs, isW := isStdoutWrite(c); isW {
 				r.Check(an.Unwrap(bs) == m.content, key+"|bytes", c.Pos(), "--print-only echoes exactly the bytes read from the file (the os.ReadFile result), not a re-printed file")
-				guarded := len(printBrs) > 0 && unreachableWithout(c.Block(), edgesWhen(printBrs, true))
+				guarded := m.unreachableUnder(c.Block(), noPrint)
 				r.Check(guarded, key+"|only-print", c.Pos(), "the echo happens only under --print-only")
 				continue
 			}
